@@ -8,6 +8,7 @@
 //!   nsim selftest determinism <ID> [--cases N]
 
 mod checks;
+mod fmt;
 mod genr;
 mod kernel;
 mod model;
@@ -168,6 +169,11 @@ fn real_main(args: &[String]) -> i32 {
                     let cases = arg_val(args, "--cases").and_then(|s| s.parse().ok()).unwrap_or(200);
                     let seed = arg_val(args, "--seed").and_then(|s| s.parse().ok()).unwrap_or_else(env_seed);
                     checks::selftest_determinism(check, seed, cases)
+                }
+                "domain" => {
+                    let cases = arg_val(args, "--cases").and_then(|s| s.parse().ok()).unwrap_or(200);
+                    let seed = arg_val(args, "--seed").and_then(|s| s.parse().ok()).unwrap_or_else(env_seed);
+                    checks::selftest_domain(seed, cases, arg_val(args, "--kind"))
                 }
                 _ => {
                     eprintln!("usage: nsim selftest determinism <ID>");
